@@ -57,3 +57,18 @@ MUTANTS += [
     {"name": "c06-timestamp-not-restarted", "checks": ["C06"],
      "edits": [(PA, '        object.__setattr__(copy, "timestamp", datetime.now())\n        return copy', '        return copy')]},
 ]
+MD = "repid/dependencies/message_dependency.py"
+MUTANTS += [
+    {"name": "c13-success-flag-inverted", "checks": ["C13"],
+     "edits": [(P, "                success=result_actor.success,\n                exception=None,", "                success=not result_actor.success,\n                exception=None,")]},
+    {"name": "c13-store-when-disabled", "checks": ["C13"],
+     "edits": [(P, "        if result_params is None:\n            return\n", "        if result_params is None:\n            result_params = self._conn.message_broker.PARAMETERS_CLASS.RESULT_CLASS(id_='r-' + 'x')\n")]},
+    {"name": "c13-eager-keeps-first-set", "checks": ["C13", "C16"],
+     "edits": [(MD, "        data = self._actor_data.converter.convert_outputs(result)\n", "        data = self._actor_data.converter.convert_outputs(result)\n        if self.__result_success is not None:\n            return\n")]},
+    {"name": "c13-exception-text-repr", "checks": ["C13"],
+     "edits": [(P, "                data=str(result_actor.exception),", "                data=repr(result_actor.exception),")]},
+    {"name": "c13-eager-store-failure-propagates", "checks": ["C13"],
+     "edits": [(MD, "            try:\n                await store_result()\n            except Exception:  # noqa: BLE001", "            try:\n                await store_result()\n            except KeyError:  # noqa: BLE001")]},
+    {"name": "c13-result-ttl-dropped", "checks": ["C13"],
+     "edits": [(P, "                exception=None,\n                timestamp=datetime.now(),\n                ttl=result_params.ttl,", "                exception=None,\n                timestamp=datetime.now(),\n                ttl=None,")]},
+]
